@@ -153,10 +153,6 @@ class Deco:
                      'setup': setup})
 
 
-def _ename(exc):
-    return None if exc is None else type(exc).__name__
-
-
 class World:
     def __init__(self, setup, chans, with_global, deco):
         self.setup = setup
@@ -295,7 +291,7 @@ class World:
         i = None
         for j in sorted(self.reqs):
             r = self.reqs[j]
-            if r['name'] == 'agent' and r['sc'] == sc and \
+            if r['name'] == 'agent' and sc in (r['sc'], '?') and \
                     r.get('delivered') and not r.get('seen'):
                 r['seen'] = True
                 i = j
@@ -305,6 +301,7 @@ class World:
                             f'was started in scope {sc} without a request '
                             f'that has arrived'))
             return False
+        sc = self.reqs[i]['sc']
         self._start(sc, i, 'agent')
         return await self._gate(sc, i)
 
@@ -932,8 +929,7 @@ def replay(setup, script, deco, compare=True):
     steps=n)."""
     chans, with_g = chans_of(script)
     w = World(setup, chans, with_g, deco)
-    res = {'violations': [], 'divergences': [], 'defects': set(), 'steps': 0,
-           'skipped': None}
+    res = {'violations': [], 'divergences': [], 'defects': set(), 'steps': 0}
     try:
         w.start()
         batch = deco.d.get('batch') or []
